@@ -23,6 +23,7 @@ CONSTANTS CaseSpace,      \* set of [cid, expr, env] records explored by Init
           SwOrSeedTrue,   \* F9: `or` is folded starting from True
           SwAllFailLeaks, \* F19: the counterexample object of a failed all(<generator>) is handed to the enclosing
                           \*      expression instead of the value False
+          SwLastOperandTruth, \* F32: the re-evaluator tests the truth value of the last operand of and/or
           SwNoStarred,    \* F21: a starred argument of a call (f(*xs)) cannot be re-computed at all
           SwCompTargetLeaks \* F22: the loop variable of a comprehension that shadows a variable of the condition is
                           \*      recorded (as the internal placeholder) and replaces the line of the shadowed variable
@@ -44,16 +45,22 @@ VAllFail(n) == [t |-> "allfail", n |-> n, s |-> <<>>]
 \* a class object (the result of type(..)): 1 int, 2 bool, 3 NoneType, 4 list, 5 the harness's Obj class
 VCls(n)   == [t |-> "cls", n |-> n, s |-> <<>>]
 ClsOfVal(v) == CASE v.t = "int" -> 1 [] v.t = "bool" -> 2 [] v.t = "none" -> 3 [] v.t = "list" -> 4 [] v.t = "obj" -> 5
-                 [] v.t = "cls" -> 6
+                 [] v.t = "cls" -> 6 [] v.t = "amb" -> 7
+\* an object whose truth value is AMBIGUOUS (bool(v) raises, as for a numpy array): Python tests the truth of an operand
+\* of and/or only if it is not the last one, of `not`, of the test of a conditional expression
+VAmb == [t |-> "amb", n |-> 0, s |-> <<>>]
+TruthOK(v) == v.t # "amb"
 VNumeric(v) == v.t \in {"int", "bool"}
 Truthy(v) == CASE v.t = "int" -> v.n # 0 [] v.t = "bool" -> v.n = 1 [] v.t = "none" -> FALSE
                [] v.t = "list" -> v.s # <<>> [] v.t = "obj" -> TRUE [] v.t = "allfail" -> FALSE [] v.t = "cls" -> TRUE
+               [] v.t = "amb" -> TRUE      \* (never consulted: every use is guarded by TruthOK)
 \* Python equality
 PyEq(a, b) == IF VNumeric(a) /\ VNumeric(b) THEN a.n = b.n
               ELSE IF a.t = "list" /\ b.t = "list" THEN a.s = b.s
               ELSE IF a.t = "none" /\ b.t = "none" THEN TRUE
               ELSE IF a.t = "obj" /\ b.t = "obj" THEN a.n = b.n     \* same object (one object per attribute value)
               ELSE IF a.t = "cls" /\ b.t = "cls" THEN a.n = b.n
+              ELSE IF a.t = "amb" /\ b.t = "amb" THEN TRUE          \* the one ambiguous object of a case
               ELSE FALSE
 
 Arity(k) == CASE k \in {"int", "none", "true", "false", "name"} -> 0
@@ -119,7 +126,7 @@ RECURSIVE Digits(_, _, _)
 Digits(s, i, acc) == IF i > Len(s) THEN acc ELSE Digits(s, i + 1, acc * 10 + s[i])
 HasNoneElem(s) == \E i \in DOMAIN s : s[i] = NoneElem
 Unary(k, v) ==
-  CASE k = "not" -> Ok(VBool(~Truthy(v)))
+  CASE k = "not" -> IF TruthOK(v) THEN Ok(VBool(~Truthy(v))) ELSE Exc("TypeError")
     [] k = "sum_star" -> IF v.t # "list" THEN Exc("TypeError")
                          ELSE IF HasNoneElem(v.s) THEN Exc("TypeError")
                          ELSE Ok(VInt(Digits(v.s, 1, 0)))
@@ -169,20 +176,24 @@ Eval(p) ==
   ELSE IF k \in {"and", "or"} THEN
     LET a == Eval(Child1(p)) IN
     IF a.st # "ok" THEN [st |-> a.st, v |-> a.v, ev |-> a.ev \cup {p}]
+    ELSE IF ~TruthOK(a.v) THEN [st |-> "exc", v |-> Exc("TypeError").v, ev |-> a.ev \cup {p}]
     ELSE IF (k = "and") = Truthy(a.v)
       THEN LET b == Eval(Child2(p)) IN [st |-> b.st, v |-> b.v, ev |-> a.ev \cup b.ev \cup {p}]
       ELSE [st |-> "ok", v |-> a.v, ev |-> a.ev \cup {p}]
   ELSE IF k \in {"and3", "or3"} THEN
     LET a == Eval(Child1(p)) IN
     IF a.st # "ok" THEN [st |-> a.st, v |-> a.v, ev |-> a.ev \cup {p}]
+    ELSE IF ~TruthOK(a.v) THEN [st |-> "exc", v |-> Exc("TypeError").v, ev |-> a.ev \cup {p}]
     ELSE IF (k = "and3") # Truthy(a.v) THEN [st |-> "ok", v |-> a.v, ev |-> a.ev \cup {p}]
     ELSE LET b == Eval(Child2(p)) IN
          IF b.st # "ok" THEN [st |-> b.st, v |-> b.v, ev |-> a.ev \cup b.ev \cup {p}]
+         ELSE IF ~TruthOK(b.v) THEN [st |-> "exc", v |-> Exc("TypeError").v, ev |-> a.ev \cup b.ev \cup {p}]
          ELSE IF (k = "and3") # Truthy(b.v) THEN [st |-> "ok", v |-> b.v, ev |-> a.ev \cup b.ev \cup {p}]
          ELSE LET c == Eval(Child3(p)) IN [st |-> c.st, v |-> c.v, ev |-> a.ev \cup b.ev \cup c.ev \cup {p}]
   ELSE IF k = "ifexp" THEN
     LET c == Eval(Child1(p)) IN
     IF c.st # "ok" THEN [st |-> c.st, v |-> c.v, ev |-> c.ev \cup {p}]
+    ELSE IF ~TruthOK(c.v) THEN [st |-> "exc", v |-> Exc("TypeError").v, ev |-> c.ev \cup {p}]
     ELSE LET b == Eval(IF Truthy(c.v) THEN Child2(p) ELSE Child3(p)) IN
          [st |-> b.st, v |-> b.v, ev |-> c.ev \cup b.ev \cup {p}]
   ELSE IF k = "lt2" THEN
@@ -240,6 +251,7 @@ Rec(p) ==
   ELSE IF k = "ifexp" THEN
     LET c == Rec(Child1(p)) IN
     IF c.st # "ok" THEN [st |-> c.st, v |-> c.v, tc |-> c.tc \cup {p}, val |-> c.val]
+    ELSE IF ~TruthOK(c.v) THEN [st |-> "exc", v |-> PH, tc |-> c.tc \cup {p}, val |-> c.val]
     ELSE LET b == Rec(IF Truthy(c.v) THEN Child2(p) ELSE Child3(p)) IN
          [st |-> b.st, v |-> b.v, tc |-> c.tc \cup b.tc \cup {p},
           val |-> c.val \cup b.val \cup (IF b.st = "ok" THEN {<<p, b.v>>} ELSE {})]
@@ -266,6 +278,8 @@ LazyBool(p, ops, i, acc) ==
       tc == acc.tc \cup r.tc
       val == acc.val \cup r.val
   IN IF r.st # "ok" THEN [st |-> r.st, v |-> r.v, tc |-> tc, val |-> val]
+     \* SwLastOperandTruth (F32): the truth value of the LAST operand is tested as well (Python never does)
+     ELSE IF ~TruthOK(r.v) /\ (i < Len(ops) \/ SwLastOperandTruth) THEN [st |-> "exc", v |-> PH, tc |-> tc, val |-> val]
      ELSE IF i = Len(ops) \/ (IsAnd(p) # Truthy(r.v)) THEN [st |-> "ok", v |-> r.v, tc |-> tc, val |-> val \cup {<<p, r.v>>}]
      ELSE LazyBool(p, ops, i + 1, [tc |-> tc, val |-> val])
 
@@ -326,7 +340,7 @@ PyRes  == Eval(1)
 RecRes == Rec(1)
 Shown  == {pv \in RecRes.val : pv[1] = 0 \/ ShownKind(Expr[pv[1]].k)}
 
-Violated == PyRes.st = "ok" /\ ~Truthy(PyRes.v)        \* the condition evaluates falsy: a violation is due
+Violated == PyRes.st = "ok" /\ TruthOK(PyRes.v) /\ ~Truthy(PyRes.v)        \* the condition evaluates falsy: a violation is due
 NoneFree == \A i \in DOMAIN case.env : case.env[i].t # "none"
 
 \* the value of the node at position q in Python's evaluation (q was evaluated)
